@@ -45,6 +45,20 @@ def shapes(tier, seed):
     bases = [X, ("sel", X, ("gt", sqlprogs.A, ("lit", "$k"))), ("chain", X, Y), ("join", X, Z, None),
              ("slice", ("sort", X, ((sqlprogs.A, True),)), 0, 2), ("dedup", X), ("proj", X, ("a", "b"))]
     others = [X, Y, Z, ("chain", Y, X), ("join", Y, Z, None), ("proj", Y, ("a",)), ("dedup", ("proj", Y, ("a", "b")))]
+    sl = ("slice", X, "$s1", "$e1")
+    slp = {"$s1": [0, hi], "$e1": [0, hi]}
+    for o in (Y, ("dedup", Y), ("slice", Y, "$s2", "$e2")):
+        p2 = dict(slp)
+        if "$s2" in repr(o):
+            p2.update({"$s2": [0, hi], "$e2": [0, hi]})
+        cons = [["$s1", "$e1"]] + ([["$s2", "$e2"]] if "$s2" in repr(o) else [])
+        for node in (("chain", sl, o), ("chain", o, sl), ("dedup", ("chain", sl, o)), ("join", sl, ("leaf", "Z"), None),
+                     ("join", ("leaf", "Z"), sl, None), ("chain", ("dedup", sl), o), ("chain", ("proj", sl, ("a", "b")), ("proj", o, ("a", "b")))):
+            try:
+                cols_of(node, sqlprogs.LEAFCOLS)
+            except IllTyped:
+                continue
+            add(node, p2, cons)
     for b in bases:
         for o in others:
             for node in (("join", b, o, None), ("join", o, b, None), ("chain", b, o), ("chain", o, b)):
